@@ -4,7 +4,7 @@ Driver for the encryption / decryption model (command word `enc`).
 Request line:  `id enc <op> key=value …`
   columns: limbs separated by `|`, coefficients by `,`; several columns separated by `;`
   ops
-    glwe_sk      bits n b k kxe size db ds  sk=<cols> ct=<cols> e=<poly> [pt=<col>]   (masks = columns 1.. of ct;
+    glwe_sk      bits n b k kxe size db ds [ptb=<plaintext base2k, default b>] sk=<cols> ct=<cols> e=<poly> [pt=<col>]   (masks = columns 1.. of ct;
                  no `pt` key = glwe_encrypt_zero_sk)
     glwe_pk      bits n b k kxe size db ds  sk=<cols> pk=<cols> u=<poly> es=<polys> [pt=<col>]
     lwe_sk       b kxe size db ds  sk=<poly> ct=<col> e=<int> pt=<col of 1-coefficient limbs>
@@ -83,11 +83,12 @@ def handle (ts : List String) : String :=
     let db := kvNat ts "db"
     let ds := kvNat ts "ds"
     let pt : Option Col := (kv ts "pt").map parseCol
+    let ptB := if (kv ts "ptb").isSome then kvNat ts "ptb" else b
     match op with
     | "glwe_sk" =>
       let sk := kvPolys ts "sk"
       let ct := kvCols ts "ct"
-      match Core.glweEncryptSk bits b k n size kxe (ct.drop 1) pt sk (kvPoly ts "e") with
+      match Core.glweEncryptSk bits b k n size kxe (ct.drop 1) pt ptB sk (kvPoly ts "e") with
       | none => "panic"
       | some c =>
         match Core.glweDecrypt bits c sk db ds with
@@ -104,18 +105,18 @@ def handle (ts : List String) : String :=
     | "lwe_sk" =>
       let sk := kvPoly ts "sk"
       let ptl := (kvCol ts "pt").map (fun l => l.getD 0 0)
-      match Core.lweEncryptSk b size kxe (kvCol ts "ct") ptl sk (kvInt ts "e") with
+      match Core.lweEncryptSk b size kxe (kvCol ts "ct") ptl ptB sk (kvInt ts "e") with
       | none => "panic"
       | some c =>
         match Core.lweDecrypt b c sk db ds with
         | none => showCol c ++ " panic"
         | some d => showCol c ++ " " ++ showCol d
     | "glwe_stream" =>
-      match Core.glweEncryptSkS bits b k n size kxe (kvNat ts "rank") pt (kvPolys ts "sk") (natsOf ts "xa") (kvPoly ts "e") with
+      match Core.glweEncryptSkS bits b k n size kxe (kvNat ts "rank") pt ptB (kvPolys ts "sk") (natsOf ts "xa") (kvPoly ts "e") with
       | none => "panic"
       | some (c, _) => showCols c.cols
     | "glwe_cmp" =>
-      match Core.glweEncryptCompressed bits b k n size kxe (kvNat ts "rank") pt (kvPolys ts "sk") (natsOf ts "xa") (kvPoly ts "e") with
+      match Core.glweEncryptCompressed bits b k n size kxe (kvNat ts "rank") pt ptB (kvPolys ts "sk") (natsOf ts "xa") (kvPoly ts "e") with
       | none => "panic"
       | some cc =>
         match Core.decompressGlwe cc with
